@@ -1935,9 +1935,10 @@ class NITFReader(BaseReader):
         else:
             raise ValueError('Unhandled IMODE `{}`'.format(image_header.IMODE))
 
-        if len(block_bounds) == 1:
-            # there is just a single block, no need to obfuscate behind a
-            # block aggregate
+        if len(block_bounds) == 1 and additional_offset == 0 and \
+                block_bounds[0][1] == image_header.NROWS and block_bounds[0][3] == image_header.NCOLS:
+            # there is just a single block, with no padding and no mask table,
+            # no need to obfuscate behind a block aggregate
 
             if can_use_memmap:
                 return NumpyMemmapSegment(
